@@ -7,6 +7,11 @@ Driver for the emission state machine.
     -> <summary> | <state after day 0>;<state after day 1>;...
   summary = status activeDays emitDays mitDays endDate by tagged initDetect initDetectBy
   per-day = status:activeDays:daysEmitting:tagged:dst:emitting
+  tagcalls <complete> <company> <trd> <prevDay> <curDay> [[component,measuredRate(scaled int)],...]
+    -> [[component,company,trd],...] <latest tagging survey day after the step> <days since last survey>
+       (`tagCalls` / `tagEvs` / `latestTaggingSurvey`: ComponentLevelMethod.survey_site)
+  sampledelay [d0,d1,...] <drawn index>
+    -> <delay> | -        (`sampleDelay`: Source._get_rep_delay, the drawn index is an input)
 -/
 open LdarModel LdarModel.Emission LdarModel.Proto
 
@@ -36,8 +41,27 @@ def runCase (p : Params) (N : Nat) (evs : List (Nat × Ev)) : State × List Stri
       let s' := dayE p (n : Int) todays acc.1
       (s', showDay p s' :: acc.2)) (init, [])
 
+def parsePair (s : String) : Option (Nat × Int) := do
+  match ← intList? s with
+  | [c, r] => if c < 0 then none else some (c.toNat, r)
+  | _ => none
+
+def showTagEv (x : Nat × TagEv) : String := s!"[{x.1},{x.2.company},{x.2.trd}]"
+
 def step (_ : Unit) (toks : List String) : Unit × String :=
   match toks with
+  | ["tagcalls", cp, co, trd, prev, cur, dets] =>
+    match bool? cp, nat? co, int? trd, int? prev, int? cur, listOf? parsePair dets with
+    | some cp, some co, some trd, some prev, some cur, some dets =>
+      let evs := tagEvs co trd cp dets
+      -- consistency of the two model definitions is part of the reply: components of `tagEvs` = `tagCalls`
+      let same := evs.map (·.1) == tagCalls cp dets
+      ((), showList showTagEv evs ++ s!" {latestTaggingSurvey cp prev cur} {cur - prev} {showBool same}")
+    | _, _, _, _, _, _ => ((), "bad-op")
+  | ["sampledelay", l, i] =>
+    match intList? l, nat? i with
+    | some l, some i => ((), showOptInt (sampleDelay l i))
+    | _, _ => ((), "bad-op")
   | ["case", st, nrd, dl, rp, im, ad, idr, n, evs] =>
     match int? st, int? nrd, int? dl, bool? rp, bool? im, int? ad, int? idr, nat? n, listOf? parseEv evs with
     | some st, some nrd, some dl, some rp, some im, some ad, some idr, some n, some evs =>
